@@ -27,7 +27,7 @@ for pid in ALL:
 
 manifest = {
     "version": 1,
-    "setup_cmd": "cd /verif/engine && python3 retype.py && CARGO_NET_OFFLINE=true cargo build --offline -p harness && python3 kanirun.py --setup",
+    "setup_cmd": "cd /verif/engine && python3 retype.py && CARGO_NET_OFFLINE=true cargo build --offline -p harness && python3 kanirun.py --setup && cd /verif && ./check --selfcheck",
     "hooks": {
         "guard": "ohsl_verif",
         "enable": "no source hooks are needed: the harness crates depend on /repo by path (public API, generic instantiation at symcore::Sym) and on a derived copy regenerated from /repo/src on every run",
